@@ -376,6 +376,12 @@ def execute(history):
                             out.violate("lockstep_status_differs", i, "%s failed on the restored module (%s: %s) after the original accepted it" % (k, type(e).__name__, str(e)[:120]), family=entry, how=how_last, dtype=dtn)
                         else:
                             break
+                if B is not None and k == "sample_prior" and tol < tol_for("float32"):
+                    # A prior built in float32 and moved to float64 keeps sampling in float32 (its base distribution is not a
+                    # buffer), a prior restored from a state dict samples in float64: the same sample drawn on the original and
+                    # on the restored module agrees to float32 rounding only, which sensitive kernels (periodic) amplify
+                    tol = tol_for("float32")
+                    out.stats["probe:float32_precision_after_sample_on_both"] += 1
                 if B is not None:
                     check_pair(out, i, A, B, entry, dtn, how_last, tol, op.get("seed", 1), "after " + k)
             out.transitions.add("%s->%s" % (entry.split("_")[0], tag))
